@@ -1,4 +1,72 @@
-(** C21 — placeholder statements (extended below). *)
+(** C21 — field square roots and quadratic-residue tests are correct.
+    Statements over the prime-field model coq/theories/Sqrt.v of PrimeFieldElement._sqrt / _is_sqr
+    (gmpy stubs jacobi / powmod / invert underneath). *)
 Require Import MPyC.Field MPyC.Zp MPyC.FinField MPyC.Sqrt.
 From Coq Require Import ZArith Znumtheory List.
+Import ListNotations.
 Local Open Scope nat_scope.
+
+(** Fermat's little theorem, proved (no hypothesis): in any field with its nonzero elements enumerated ... *)
+Theorem C21_fermat_abstract : forall (K : FieldT) (units : list K),
+  NoDup units -> (forall x, In x units <-> x <> f0 K) ->
+  forall a, a <> f0 K -> fpow a (length units) = f1 K.
+Proof. exact fermat_abstract. Qed.
+Print Assumptions C21_fermat_abstract.
+
+(** ... and for the integers modulo any prime *)
+Theorem C21_fermat : forall p a, prime p -> (a mod p <> 0)%Z -> (a ^ (p - 1) mod p = 1)%Z.
+Proof. exact fermat. Qed.
+Print Assumptions C21_fermat.
+
+(** Euler's criterion, direction "square => a^((p-1)/2) = 1" (every odd prime).
+    PARTIAL: the converse (a^((p-1)/2) = 1 => a is a square; root-counting argument) is not proved here. *)
+Theorem C21_euler_square_partial : forall p a b, prime p -> p <> 2%Z ->
+  ((b * b) mod p = a mod p)%Z -> (a mod p <> 0)%Z -> (a ^ ((p - 1) / 2) mod p = 1)%Z.
+Proof. exact euler_square. Qed.
+Print Assumptions C21_euler_square_partial.
+
+(** every prime p = 3 (mod 4), every nonzero square a: sqrt(a) is reduced and sqrt(a)^2 = a *)
+Theorem C21_sqrt_p3mod4 : forall p, prime p -> (p mod 4 = 3)%Z -> forall a, (0 < a < p)%Z ->
+  (exists b, (b * b) mod p = a)%Z ->
+  exists r, sqrt p a false = Ok r /\ (0 <= r < p)%Z /\ mul p r (El r) = a.
+Proof. exact sqrt_p3mod4. Qed.
+Print Assumptions C21_sqrt_p3mod4.
+
+(** ... and sqrt(a, INV=True) (exponent (3p-5)/4) is the inverse of sqrt(a), for every nonzero a *)
+Theorem C21_sqrt_inv_p3mod4 : forall p, prime p -> (p mod 4 = 3)%Z -> forall a, (0 < a < p)%Z ->
+  exists r ri, sqrt p a false = Ok r /\ sqrt p a true = Ok ri /\ (0 <= ri < p)%Z /\ mul p ri (El r) = 1%Z.
+Proof. exact sqrt_inv_p3mod4. Qed.
+Print Assumptions C21_sqrt_inv_p3mod4.
+
+(** zero, every modulus: sqrt(0) = 0, sqrt(0, INV=True) raises ZeroDivisionError *)
+Theorem C21_sqrt_zero : forall p, sqrt p 0 false = Ok (0 mod p)%Z /\ sqrt p 0 true = Err ZeroDiv.
+Proof. exact sqrt_zero. Qed.
+Print Assumptions C21_sqrt_zero.
+
+Theorem C21_sqrt_p2 : forall a, (0 <= a < 2)%Z -> exists r, sqrt 2 a false = Ok r /\ mul 2 r (El r) = a.
+Proof. exact sqrt_p2. Qed.
+Print Assumptions C21_sqrt_p2.
+
+(** BOUNDED (the bound is the explicit list primes200 = the 46 primes below 200; all elements a):
+    the whole of _is_sqr / _sqrt including the Cipolla-Lehmer branch (p = 1 mod 4), the search for b and the
+    jacobi loop: is_sqr(a) <-> a is a square; for squares sqrt(a)^2 = a; for nonzero squares sqrt(a, INV) is the
+    inverse of sqrt(a); sqrt(0, INV) raises ZeroDivisionError.  Decided by vm_compute. *)
+Theorem C21_sqrt_is_sqr_bounded : forall p a, In p primes200 -> (0 <= a < p)%Z ->
+  (exists s, is_sqr p a = Ok s /\ (s = true <-> exists b, (b * b) mod p = a)%Z) /\
+  ((exists b, (b * b) mod p = a)%Z ->
+     (exists r, sqrt p a false = Ok r /\ (0 <= r < p)%Z /\ ((r * r) mod p = a)%Z /\
+        (a <> 0%Z -> exists ri, sqrt p a true = Ok ri /\ (0 <= ri < p)%Z /\ ((ri * r) mod p = 1)%Z)) /\
+     (a = 0%Z -> sqrt p a true = Err ZeroDiv)).
+Proof. exact sqrt_is_sqr_bounded. Qed.
+Print Assumptions C21_sqrt_is_sqr_bounded.
+
+Theorem C21_primes200_are_prime : forall p, In p primes200 -> prime p.
+Proof. exact primes200_prime. Qed.
+Print Assumptions C21_primes200_are_prime.
+
+(** Non-vacuity: GF(11) (3 mod 4): 5 = 4^2, sqrt 5 = 4, INV 3 = 1/4; GF(13) (1 mod 4, Cipolla): 10 = 6^2, sqrt 10 = 7. *)
+Example C21_nonvacuous :
+  prime 11 /\ (11 mod 4 = 3)%Z /\ ((4 * 4) mod 11 = 5)%Z /\ sqrt 11 5 false = Ok 4%Z /\ sqrt 11 5 true = Ok 3%Z /\
+  mul 11 3 (El 4) = 1%Z /\ In 13%Z primes200 /\ ((6 * 6) mod 13 = 10)%Z /\ sqrt 13 10 false = Ok 7%Z /\
+  ((7 * 7) mod 13 = 10)%Z /\ is_sqr 13 10 = Ok true /\ is_sqr 13 2 = Ok false.
+Proof. split; [apply is_prime_small_correct; reflexivity|]. vm_compute. repeat split; auto 20. Qed.
